@@ -88,7 +88,7 @@ class FastPxssh(pxssh.pxssh):
 
 def shards(tier):
     q = tier == 'quick'
-    return [{'n': 8 if q else 260} for _ in range(16)]
+    return [{'n': 14 if q else 260} for _ in range(16)]
 
 
 BANNERS_CLEAN = ['Welcome to host h\r\n', 'Last login: Mon Oct  5 10:00:00 2026 from 10.0.0.2\r\n', 'Linux 6.1 x86_64\r\n\r\n',
